@@ -62,8 +62,15 @@ def gen_history(seed, universe, cfg):
         next_r[0] += 1
         return "r%d" % next_r[0]
 
-    def steps(rid, cid, r, debug, tag, fault_ok):
-        acts = [["trace", rid, cid, r["target"], r["func"], r["sig"]], ["expand", rid], ["simplify", rid], ["print", rid, debug, tag]]
+    def steps(rid, cid, r, debug, tag, fault_ok, raw=None):
+        if raw is None:
+            raw = r["func"].startswith("stress_") and rq.random() < 0.3
+        if raw:
+            # print right after tracing (no expansion / simplification): keeps the call-frame origins of
+            # the traced expressions, hence exercises the origin-prefixed reference names
+            acts = [["trace", rid, cid, r["target"], r["func"], r["sig"]], ["print", rid, debug, tag, "raw"]]
+        else:
+            acts = [["trace", rid, cid, r["target"], r["func"], r["sig"]], ["expand", rid], ["simplify", rid], ["print", rid, debug, tag]]
         if fault_ok and fl.random() < p_fault:
             i = fl.randrange(len(acts))
             acts[i] = ["fault", fl.randint(1, fault_span), acts[i]]
@@ -94,13 +101,14 @@ def gen_history(seed, universe, cfg):
             cid = new_cid()
             rid = new_rid()
             tag = "cmp" if t in cmp_targets else "bg"
-            acts = [["ctx", cid, t]] + steps(rid, cid, r, debug, tag, False)
+            raw = r["func"].startswith("stress_") and rq.random() < 0.3  # one pipeline per compared context
+            acts = [["ctx", cid, t]] + steps(rid, cid, r, debug, tag, False, raw)
             while rq.random() < p_repeat and len(acts) < 14:
                 if rq.random() < 0.5:
-                    acts.append(["print", rid, debug, tag])
+                    acts.append(["print", rid, debug, tag] + (["raw"] if raw else []))
                 else:
                     rid = new_rid()
-                    acts += steps(rid, cid, r, debug, tag, False)
+                    acts += steps(rid, cid, r, debug, tag, False, raw)
             threads.append(acts)
 
     # interleave
@@ -216,6 +224,7 @@ class Executor:
         self.steps = 0
         self.outputs = []
         self.last_aborted = False
+        self.tainted = set()
         self.pos = 0
 
     def bump(self, d, k, n=1):
@@ -317,7 +326,8 @@ class Executor:
                 return
             self.guarded(req, "simplified", lambda: g.rewrite(fa.rewrite), fault)
         elif op == "print":
-            if req["stage"] not in ("simplified", "printed"):
+            raw = len(a) > 4 and a[4] == "raw"
+            if req["stage"] not in (("traced", "printed_raw") if raw else ("simplified", "printed")):
                 return
             debug, tag = a[2], a[3]
             tmp_before = self.tmp_counter()
@@ -327,13 +337,13 @@ class Executor:
                 box.append(g.tostring(tm, debug=debug))
                 return g
 
-            self.guarded(req, "printed", fn, fault)
+            self.guarded(req, "printed_raw" if raw else "printed", fn, fault)
             if box:
                 text = box[0]
                 if not isinstance(text, str):
                     raise TypeError("tostring returned %r" % type(text))
                 req["prints"] = req.get("prints", 0) + 1
-                rec = dict(key=req_key(req, debug), tag=tag, rid=req["rid"], cid=req["cid"], prior=req["prior"],
+                rec = dict(key=req_key(req, debug) + (":raw" if raw else ""), tag=tag, rid=req["rid"], cid=req["cid"], prior=req["prior"],
                            rep=req["prints"], pos=self.pos, sha=hashlib.sha256(text.encode()).hexdigest(), env=self.env.active,
                            after_abort=self.last_aborted, tmp_counter=tmp_before, target=req["target"], debug=debug)
                 self.last_aborted = False
@@ -355,6 +365,7 @@ class Executor:
         except InjectedFault:
             req["stage"] = "dead"
             self.last_aborted = True
+            self.tainted.add(req["cid"])
             self.bump(self.stats, "aborted_by_injected_fault")
             self.log.ev("aborted", req["rid"])
             # the half-finished call frame prefix would otherwise name everything that follows on this
@@ -364,10 +375,17 @@ class Executor:
             self.last_aborted = True
             self.bump(self.faults, "aborted:NotImplementedError")
             self.log.ev("notimpl", req["rid"])
-        except OSError as e:
-            # a formatter / tmpdir fault may legitimately fail the request
-            if self.env.active is None:
-                raise
+        except Exception as e:
             req["stage"] = "dead"
-            self.bump(self.faults, "io_error_under_env_fault:" + type(e).__name__)
-            self.log.ev("oserror", req["rid"], type(e).__name__)
+            self.log.ev("failed", req["rid"], type(e).__name__)
+            if isinstance(e, OSError) and self.env.active is not None:
+                # a formatter / tmpdir fault may legitimately fail the request
+                self.bump(self.faults, "io_error_under_env_fault:" + type(e).__name__)
+            elif req["cid"] in self.tainted:
+                # an earlier injected exception left this context half-updated (e.g. an expression
+                # registered without its origin); a later request on it may fail -- loudly.  May fail,
+                # never wrong data: whatever text *is* returned from such a context is still checked.
+                self.bump(self.faults, "request_failed_on_fault_tainted_context:" + type(e).__name__)
+            else:
+                # no text was emitted, so the text oracles have nothing to say; reported, not flagged
+                self.bump(self.probes, "request_crashed_on_clean_context:" + type(e).__name__)
